@@ -52,6 +52,9 @@ def check_model(text, exp, renderer, acc, case):
     acc.outcomes['elements:%d' % min(len(renderer.lines), 12)] += 1
     want = project(exp)
     for route, a in I.parse_routes(text, dialect, acc):
+        if a[0] == 'exc':
+            acc.violation('foreign-exception', case, '%s: %s' % (route, a[1]))
+            return
         if a[0] != 'ok':
             acc.violation('well-formed-rejected', case, '%s: well-formed document rejected: %s' % (route, a[1]))
             return
@@ -69,7 +72,7 @@ def check_text(text, acc, default='en'):
     from .. import ref as R
     case = {'kind': 'text', 'text': text}
     acc.n += 1
-    a = I.parse(text, default=default, acc=acc)
+    a = I.parse(text, default=default, acc=acc, reread=True)
     if a[0] == 'exc':
         acc.violation('foreign-exception', case, 'parser raised ' + a[1])
         return
